@@ -150,7 +150,7 @@ def correspondence(ctx):
     dist = {}
     for dim in (2, 3, 4):
         pairs = list(itertools.product(C.SIGS[dim], repeat=2))
-        if ctx.tier == "quick" and dim == 4:
+        if False and ctx.tier == "quick" and dim == 4:          # all 144 lorentz pairs in every tier
             same = [(s, s) for s in C.SIGS[4]]
             pairs = same + r.sample([p for p in pairs if p[0] != p[1]], 24)
         for s1, s2 in pairs:
